@@ -57,6 +57,10 @@ def tasks(tier, seed):
                                 ts.append({"kind": "seq", "seq": list(seq), "term": term, "disp": disp, "onrec": onrec, "interval": interval, "ping": ping,
                                            "bound": (2 if tier == "quick" else 4) if (ping and disp == "builtin") else 0,
                                            "name": "%s|%s/%s/rec=%s/i=%d/ping=%s" % (",".join(seq) or "-", term, disp, onrec, interval, ping)})
+                                if ping and disp == "builtin" and k <= 1 and interval == 1:
+                                    # the same with a scheduling point at every executed library line (ping thread against the loop thread)
+                                    ts.append({"kind": "seq", "seq": list(seq), "term": term, "disp": disp, "onrec": onrec, "interval": interval, "ping": ping, "line": True,
+                                               "bound": 2 if tier == "quick" else 3, "name": "%s|%s/%s/rec=%s/i=%d/ping=True/line" % (",".join(seq) or "-", term, disp, onrec, interval)})
                                 if k == 1 and interval == 1 and not ping:
                                     # the handlers installed as attributes after construction (app.on_open = f) instead of constructor arguments
                                     ts.append({"kind": "seq", "seq": list(seq), "term": term, "disp": disp, "onrec": onrec, "interval": interval, "ping": ping,
@@ -206,7 +210,7 @@ class Harness:
             actions["on_open"] = act2
             actions["on_reconnect"] = act2
         spec = {"url": "ws://h.example/", "callbacks": cbs, "attempts": attempts, "run_kwargs": run_kwargs, "actions": actions, "horizon": 400.0,
-                "max_steps": 40000}
+                "max_steps": 40000 if not d.get("line") else 400000, "line_level": bool(d.get("line"))}
         rel = None
         if d["disp"] == "external":
             rel = FakeRel()
